@@ -14,6 +14,14 @@ MAX_PATHS = 20000
 
 def setup(E):
     packet_frames.declare_common(E)
+    # leaving the exchange: in_kex is cleared on what the packetizer says AFTER the inbound direction has switched too (it
+    # drops its need-rekey flag when the second direction switches); asked earlier, the answer is the stale "needed" and
+    # in_kex stays set for good - no later threshold crossing would start an exchange
+    global TARGETS
+    TARGETS = [t for t in TARGETS if not (isinstance(t, tuple) and t[1] == "leaving-the-exchange")]
+    TARGETS.insert(len(TARGETS) - 1, transport.newkeys_variant(E, "leaving-the-exchange", {
+        "the_exchange_is_left_on_the_packetizers_state_after_both_directions_switched":
+            "ghost('inbound_switched') and ghost('need_asked_after_switch') and self.in_kex == (old(self.in_kex) and ghost('need_answer'))"}))
     kdf.declare_setters(E)
     # the loop fragment is verified in its own environment (handlers generic, packetizer by contract)
     saved = dict(E.contracts)
@@ -26,7 +34,6 @@ def setup(E):
             E.contracts[k] = saved[k]
         elif k != transport.RUN_ITER:
             pass
-    global TARGETS
     TARGETS[-1] = (transport.RUN_ITER, "rekey-start", dict(E.contracts[transport.RUN_ITER], **{"+contracts": {
         k: v for k, v in loop_env.items() if k != transport.RUN_ITER}}))
 
